@@ -187,6 +187,14 @@ class Ctx:
         if d.kind == 'stmt' and isinstance(d.ast, ast.Assign) and len(d.ast.targets) == 1 and \
                 isinstance(d.ast.targets[0], ast.Name) and d.ast.targets[0].id == name:
             return d.ast.value, d
+        # `a, b = x, y` defines a as x and b as y (when no target occurs on the right-hand side)
+        if d.kind == 'stmt' and isinstance(d.ast, ast.Assign) and len(d.ast.targets) == 1 and \
+                isinstance(d.ast.targets[0], (ast.Tuple, ast.List)) and isinstance(d.ast.value, (ast.Tuple, ast.List)) \
+                and len(d.ast.targets[0].elts) == len(d.ast.value.elts) and \
+                all(isinstance(t, ast.Name) for t in d.ast.targets[0].elts):
+            tn = [t.id for t in d.ast.targets[0].elts]
+            if tn.count(name) == 1 and not (set(tn) & names(d.ast.value)):
+                return d.ast.value.elts[tn.index(name)], d
         return None
 
     def inline(self, e, at, depth=0, keep=()):
@@ -567,18 +575,21 @@ def classify_nz_test(test, var):
         if size_of(l, var) and isinstance(r, ast.Constant) and isinstance(r.value, int) and \
                 not isinstance(r.value, bool):
             c = r.value
-            if c == 0:
-                return {ast.Gt: 'nonempty', ast.NotEq: 'nonempty', ast.GtE: 'nonempty', ast.Eq: 'empty',
-                        ast.LtE: 'empty'}.get(op)
-            if c == 1:
-                if op is ast.GtE:
+            f = {ast.Gt: lambda n: n > c, ast.GtE: lambda n: n >= c, ast.Lt: lambda n: n < c,
+                 ast.LtE: lambda n: n <= c, ast.Eq: lambda n: n == c, ast.NotEq: lambda n: n != c}.get(op)
+            if f is not None and 0 <= c <= 64:
+                truth = [bool(f(n)) for n in range(0, c + 3)]          # sizes 0 .. c+2
+                pos = truth[1:]
+                if not truth[0] and all(pos):
                     return 'nonempty'
-                if op is ast.Lt:
+                if truth[0] and not any(pos):
                     return 'empty'
-                if op is ast.Gt:
-                    return ('wrong', 'a column with exactly one uncovered nonzero is not recorded')
-            if c > 1 and op in (ast.Gt, ast.GtE, ast.Eq):
-                return ('wrong', f'columns with fewer than {c} uncovered nonzeros are not recorded')
+                if all(truth):
+                    return 'nonempty'                                   # always true: the false edge is dead
+                lost = [n for n in range(1, c + 3) if truth[n] == truth[0]]
+                if lost:
+                    return ('wrong', f'a column with {lost[0]} uncovered nonzero(s) is treated like a column with '
+                            'none and is not recorded')
     return None
 
 
@@ -869,7 +880,7 @@ def _rows_of_column(s, gn, rows, roles):
             return (f'data slice `{astx.src(tgt.slice)}` and row-index slice `{astx.src(rows.slice)}` differ: values '
                     'are stored at positions that belong to other rows')
         lo, hi = rows.slice.lower, rows.slice.upper
-        if lo is None or hi is None:
+        if lo is None or hi is None or isinstance(lo, ast.Name) or isinstance(hi, ast.Name):
             return None
         if not _indptr(lo, owner, s.icol, 0) or not _indptr(hi, owner, s.icol, 1):
             return (f'column {s.icol} of a compressed-column matrix spans indptr[{s.icol}]:indptr[{s.icol} + 1]; found '
@@ -1100,6 +1111,25 @@ def _concrete(repo):
 
 
 # =========================================================================== C13.schema
+def _unroll_const_loops(body):
+    """Statements of a body with `for v in (<constants>): ...` replaced by one copy of the loop body per constant."""
+    for st in body:
+        if isinstance(st, ast.For) and isinstance(st.target, ast.Name) and isinstance(st.iter, (ast.Tuple, ast.List)) \
+                and st.iter.elts and all(isinstance(c, ast.Constant) for c in st.iter.elts) and not st.orelse and \
+                not any(isinstance(x, (ast.Break, ast.Continue)) for x in astx.walk_stmts(st.body)) and \
+                st.target.id not in {t.id for s2 in astx.walk_stmts(st.body) for t in astx.assigned_targets(s2)
+                                     if isinstance(t, ast.Name)}:
+            var = st.target.id
+            for c in st.iter.elts:
+                def sub(n, c=c):
+                    if isinstance(n, ast.Name) and n.id == var:
+                        return ast.copy_location(ast.Constant(value=c.value), n)
+                    return None
+                yield from _unroll_const_loops([clone(x, sub) for x in st.body])
+        else:
+            yield st
+
+
 def _in_test_key(test):
     """(key, container name) of a test `'key' in name`."""
     if isinstance(test, ast.Compare) and len(test.ops) == 1 and isinstance(test.ops[0], ast.In) and \
@@ -1119,7 +1149,7 @@ def schema(repo, out):
         if isinstance(st, ast.If) and _in_test_key(st.test) and _in_test_key(st.test)[0] == 'uncovered_nz':
             guard = st
             src = _in_test_key(st.test)[1]
-            for s2 in st.body:
+            for s2 in _unroll_const_loops(st.body):
                 if isinstance(s2, ast.Assign) and len(s2.targets) == 1 and isinstance(s2.targets[0], ast.Subscript) \
                         and isinstance(s2.value, ast.Call) and astx.callee_attr(s2.value) == 'get' and \
                         astx.path(astx.receiver(s2.value)) == src and s2.value.args and \
@@ -2423,6 +2453,11 @@ def select(repo, out):
         """('noin'|'noout', True) if e is len(comp.<meta>['input'|'output']) ; else None."""
         if isinstance(e, ast.Call) and isinstance(e.func, ast.Name) and e.func.id == 'len' and len(e.args) == 1:
             a = e.args[0]
+            if isinstance(a, ast.Subscript) and isinstance(a.value, ast.Name) and a.value.id != comp:
+                try:
+                    a = ctx.inline(a, ctx.at(e))        # `meta = comp._var_allprocs_abs2meta; len(meta['input'])`
+                except AnalysisError:
+                    pass
             if isinstance(a, ast.Subscript) and astx.const_str(a.slice) in ('input', 'output') and \
                     (astx.path(a.value) or '').startswith(comp + '.'):
                 return 'noin' if astx.const_str(a.slice) == 'input' else 'noout'
@@ -2979,6 +3014,27 @@ _MODHELPER_DEF = ("\n\ndef _audit_uncovered_nz(info, icol, column, covered_rows,
                   "        if 'uncovered_nz' not in info:\n            info['uncovered_nz'] = []\n"
                   "            info['uncovered_threshold'] = uncovered_threshold\n"
                   "        info['uncovered_nz'].extend(list(zip(nzs, icol * np.ones_like(nzs))))\n")
+_SEL_OLD = ("            if len(comp._var_allprocs_abs2meta['output']) == 0:\n                continue\n\n"
+            "            # skip any ExplicitComponent with no inputs (e.g. IndepVarComp)\n"
+            "            if (len(comp._var_allprocs_abs2meta['input']) == 0 and\n"
+            "                    isinstance(comp, ExplicitComponent)):\n                continue\n")
+_SEL_NEW = ("            abs2meta = comp._var_allprocs_abs2meta\n            if len(abs2meta['output']) == 0:\n"
+            "                continue\n\n            if len(abs2meta['input']) == 0:\n"
+            "                if isinstance(comp, ExplicitComponent):\n                    continue\n")
+_HAND_OLD = ("                        deriv['uncovered_nz'] = subjacs_info['uncovered_nz']\n"
+             "                        deriv['uncovered_threshold'] = subjacs_info['uncovered_threshold']\n")
+_CSC_OLD = ("        csc = self.info['val']\n        rowinds = csc.indices[csc.indptr[icol]:csc.indptr[icol + 1]]\n"
+            "        csc.data[csc.indptr[icol]:csc.indptr[icol + 1]] = column[rowinds]\n")
+_CSC_NEW = ("        csc = self.info['val']\n        indptr = csc.indptr\n        start, stop = indptr[icol], indptr[icol + 1]\n"
+            "        rowinds = csc.indices[start:stop]\n        csc.data[start:stop] = column[rowinds]\n")
+_COO_OLD = ("        if uncovered_threshold is not None:  # do a sparsity check\n            arr = column.copy()\n"
+            "            arr[row_inds] = 0.  # zero out the rows that are covered by sparsity\n            " + _NZ +
+            "\n            if nzs.size > 0:\n" + _GUARD3 + "\n")
+_COO_NEW = ("        if uncovered_threshold is None:\n            return\n\n        arr = column.copy()\n"
+            "        arr[row_inds] = 0.\n        " + _NZ + "\n        if nzs.size == 0:\n            return\n\n"
+            "        info = self.info\n        if 'uncovered_nz' not in info:\n            info['uncovered_nz'] = []\n"
+            "            info['uncovered_threshold'] = uncovered_threshold\n"
+            "        info['uncovered_nz'].extend(list(zip(nzs, icol * np.ones_like(nzs))))\n")
 _TV_FWD = ('errs.forward, err_vals.forward, above, abs_errs.forward, rel_errs.forward = \\\n'
            '                    get_tol_violation(Jforward, Jfd, atol, rtol)')
 _TV_REV = ('errs.reverse, err_vals.reverse, above, abs_errs.reverse, rel_errs.reverse = \\\n'
@@ -3113,6 +3169,14 @@ selftest(
            also=[(SUBJAC, _AUDIT_BLOCK, _MODHELPER_CALL + _MODHELPER_DEF.replace("            info['uncovered_threshold'] = uncovered_threshold\n", ''))]),
     Mutant('thread-module-helper-call-dropped', SUBJAC, _AUDIT_BLOCK, '            pass', 'C13.thread',
            also=[(SUBJAC, _AUDIT_BLOCK, _MODHELPER_CALL + _MODHELPER_DEF)]),
+    Mutant('select-alias-shape-implicit-skipped', PROB, _SEL_OLD, _SEL_NEW.replace("                if isinstance(comp, ExplicitComponent):\n                    continue\n", "                continue\n"), 'C13.select'),
+    Mutant('schema-loop-shape-threshold-not-handed', COMP, _HAND_OLD,
+           "                        for name in ('uncovered_nz',):\n                            deriv[name] = subjacs_info[name]\n", 'C13.schema'),
+    Mutant('schema-loop-shape-keys-crossed', COMP, _HAND_OLD,
+           "                        for name in ('uncovered_nz', 'uncovered_threshold'):\n                            deriv[name] = subjacs_info['uncovered_nz']\n", 'C13.schema'),
+    Mutant('audit-csc-locals-shape-one-row', SUBJAC, _CSC_OLD, _CSC_NEW.replace('indptr[icol], indptr[icol + 1]', 'indptr[icol], indptr[icol] + 1'), 'C13.audit'),
+    Mutant('accum-coo-early-return-shape-extend-under-init', SUBJAC, _COO_OLD, _COO_NEW.replace("        info['uncovered_nz'].extend(", "            info['uncovered_nz'].extend("), 'C13.accum'),
+    Mutant('accum-coo-early-return-shape-guard-off-by-one', SUBJAC, _COO_OLD, _COO_NEW.replace('if nzs.size == 0:', 'if nzs.size <= 1:'), 'C13.accum'),
     Mutant('tolviol-signed-error', ARR, 'abs_error = np.abs(x - ref)', 'abs_error = x - ref', 'C13.tolviol'),
     Mutant('tolviol-difference-of-magnitudes', ARR, 'abs_error = np.abs(x - ref)', 'abs_error = np.abs(x) - np.abs(ref)', 'C13.tolviol'),
     Mutant('iter-delete-declared-pair', SYSTEM, '        if key in nondep_derivs and not above_tol:\n            del derivatives[key]\n            continue',
@@ -3204,6 +3268,12 @@ selftest(
     # module-level audit helper taking the metadata dict as an argument (benign/C13_b2_2)
     Twin('twin-audit-module-level-helper', SUBJAC, _AUDIT_BLOCK, _MODHELPER_CALL, nth=0,
          also=[(SUBJAC, _AUDIT_BLOCK, _MODHELPER_CALL + _MODHELPER_DEF)]),
+    # third robustness round (benign/C13_b3_1..3)
+    Twin('twin-select-metadata-alias-nested-ifs', PROB, _SEL_OLD, _SEL_NEW),
+    Twin('twin-schema-handover-loop-over-keys', COMP, _HAND_OLD,
+         "                        for name in ('uncovered_nz', 'uncovered_threshold'):\n                            deriv[name] = subjacs_info[name]\n"),
+    Twin('twin-audit-csc-bounds-in-locals', SUBJAC, _CSC_OLD, _CSC_NEW),
+    Twin('twin-audit-coo-early-returns', SUBJAC, _COO_OLD, _COO_NEW),
     Twin('twin-tolviol-flipped-compare', ARR, 'np.any(diff > 0.)', 'np.any(0 < diff)'),
     Twin('twin-slots-or-assignment', SYSTEM, _TV_REV + '\n                above_tol |= above', _TV_REV + '\n                above_tol = above_tol or above'),
     Twin('twin-slots-temporaries', SYSTEM, _TV_REV, 'tv, vals, above, abs_errs.reverse, rel_errs.reverse = \\\n                    get_tol_violation(Jreverse, Jfd, atol, rtol)\n                errs.reverse = tv\n                err_vals.reverse = vals'),
